@@ -1,6 +1,7 @@
 #!/usr/bin/env python3
 """Validate a seeded change and run the checks against it. usage: seed_eval.py ID X check1,check2"""
 import json, os, re, shutil, subprocess, sys, time
+WORK_SEED = '/verif/work_seed' + os.environ.get('SEED_LANE', '')
 ID, X, checks = sys.argv[1], sys.argv[2], sys.argv[3].split(',')
 BASE = sys.argv[4] if len(sys.argv) > 4 else '/tmp/seedout'
 PFX = sys.argv[5] if len(sys.argv) > 5 else ''
@@ -22,7 +23,7 @@ if rc != 0:
     res['apply_error'] = o[-800:]
     print(json.dumps(res, indent=1)); sys.exit(0)
 # 1. existing tests with the change
-T = {'CARGO_TARGET_DIR': '/tmp/sv_target'}
+T = {'CARGO_TARGET_DIR': '/tmp/sv_target' + os.environ.get('SEED_LANE', '')}
 rc, o = sh('cargo nextest run --workspace --no-fail-fast --tool-config-file pb:/w/lib/nextest.toml --profile pb --test-threads 8 --offline 2>&1 | tail -3', cwd=wt, env=T)
 res['baseline_with_change'] = o.strip().splitlines()[-1] if o.strip() else ''
 # 2. demo: fails with, passes without
@@ -38,7 +39,7 @@ def set_path(p):
     lock = os.path.join(demo, 'Cargo.lock')
     if os.path.exists(lock): os.remove(lock)
     shutil.copy('/repo/Cargo.lock', lock)
-is_test = os.path.isdir(demo + '/tests') or 'test' in open(src + '/README.md').read().lower()
+is_test = os.path.isdir(demo + '/tests') or not os.path.exists(demo + '/src/main.rs')   # (a README that merely mentions tests does not make it a test demo)
 cmd = 'cargo test --offline 2>&1 | tail -15' if is_test else 'cargo run --offline 2>&1 | tail -15'
 set_path(wt)
 rc1, o1 = sh(cmd + '; exit ${PIPESTATUS[0]}', cwd=demo, env={'CARGO_TARGET_DIR': demo + '_target'})
@@ -50,11 +51,11 @@ res['demo_without_change'] = {'exit': rc2, 'tail': o2[-300:]}
 for c in checks:
     t0 = time.time()
     HOME_ = os.environ.get('SEED_VERIF_HOME', '/verif')
-    rc, o = sh('python3 %s/vf/main.py %s' % (HOME_, c), cwd=HOME_, env={'VERIF_HOME': HOME_, 'VERIF_REPO': wt, 'VERIF_WORK': '/verif/work_seed', 'VERIF_TARGET': '/verif/work_seed/target', 'VERIF_EVIDENCE_DIR': '/verif/work_seed/evidence', 'VERIF_REPLAY_DIR': '/verif/work_seed/replay'})
+    rc, o = sh('python3 %s/vf/main.py %s' % (HOME_, c), cwd=HOME_, env={'VERIF_HOME': HOME_, 'VERIF_REPO': wt, 'VERIF_WORK': WORK_SEED + '', 'VERIF_TARGET': WORK_SEED + '/target', 'VERIF_EVIDENCE_DIR': WORK_SEED + '/evidence', 'VERIF_REPLAY_DIR': WORK_SEED + '/replay'})
     lines = [l for l in o.splitlines() if l.startswith('VIOLATION') or l.startswith('KNOWN') or l.startswith(c + ':')]
     res['checks'][c] = {'exit': rc, 'violation_lines': len([l for l in lines if l.startswith('VIOLATION')]), 'first': [l[:260] for l in lines[:3]], 'summary': lines[-1] if lines else o[-300:], 'wall_s': round(time.time() - t0)}
 shutil.rmtree(demo, ignore_errors=True); shutil.rmtree(demo + '_target', ignore_errors=True)
-shutil.rmtree('/verif/work_seed', ignore_errors=True)
+shutil.rmtree(WORK_SEED + '', ignore_errors=True)
 sh('git -C /repo worktree remove --force %s' % wt)
 print(json.dumps(res, indent=1))
 os.makedirs('/verif/work/seedres', exist_ok=True)
